@@ -313,14 +313,14 @@ CHECKS["C05"] = {
     "pkg": "./core/consensus/qbft",
     "parallel": 6,
     "quick": [
-        {"harness": "VerifC05Tamper", "params": {"target": [0, 1, 2, 3, 4, 5, 6, 7], "prime": 0}, "redirects": _C5R},
+        {"harness": "VerifC05Tamper", "params": {"target": [0, 1, 2, 3, 4, 5, 6, 7, 8], "prime": 0}, "redirects": _C5R},
         {"harness": "VerifC05Tamper", "params": {"target": [1, 2, 3], "prime": 1}, "redirects": _C5R},
         {"harness": "VerifC05Limits", "params": {"nj": [2, 3], "nvals": [6, 7], "expired": 0}, "redirects": _C5R},
         {"harness": "VerifC05Limits", "params": {"nj": 1, "nvals": [4, 5], "expired": [0, 1]}, "redirects": _C5R},
         {"pkg": "./core", "harness": "VerifGater", "params": {"slotdur_ms": [12000, 8192], "clockbits": 46}},
     ],
     "thorough": [
-        {"harness": "VerifC05Tamper", "params": {"target": [0, 1, 2, 3, 4, 5, 6, 7], "prime": 0}, "redirects": _C5R, "cross": True},
+        {"harness": "VerifC05Tamper", "params": {"target": [0, 1, 2, 3, 4, 5, 6, 7, 8], "prime": 0}, "redirects": _C5R, "cross": True},
         {"harness": "VerifC05Tamper", "params": {"target": [1, 2, 3, 4], "prime": 1}, "redirects": _C5R, "cross": True},
         {"harness": "VerifC05Limits", "params": {"nj": [0, 1, 2, 3], "nvals": [0, 2, 4, 5, 6, 7, 8, 9], "expired": [0, 1]}, "redirects": _C5R},
         {"pkg": "./core", "harness": "VerifGater", "params": {"slotdur_ms": [12000, 4000], "clockbits": [46, 52]}, "timeout_ms": 900000, "case_timeout_s": 4000},
